@@ -24,7 +24,12 @@ pub open spec fn rel_inside(rel: Seq<char>) -> bool { rel.len() > 0 && rel[0] ==
 
 pub open spec fn under_root(path: Seq<char>) -> bool { exists|rel: Seq<char>| #![auto] path == cwd() + rel && rel_inside(rel) }
 
-pub open spec fn fs_allowed(path: Seq<char>) -> bool { under_root(path) || via_symlink(path) }
+// a bare file name (no separator, not "..") is resolved against the served directory itself
+pub open spec fn plain_name(p: Seq<char>) -> bool {
+    p.len() > 0 && (forall|i: int| 0 <= i < p.len() ==> !is_sep(#[trigger] p[i])) && p != seq!['.', '.']
+}
+
+pub open spec fn fs_allowed(path: Seq<char>) -> bool { under_root(path) || via_symlink(path) || plain_name(path) }
 
 // bytes [start, min(end + 1, len)) of a file; empty when start is beyond the end (file-ext 12.1.0: seek + take(end-start+1))
 pub open spec fn file_slice(c: Seq<u8>, start: int, end: int) -> Seq<u8> {
@@ -191,16 +196,6 @@ impl FileExt {
     #[verifier::external_body]
     pub fn copy_file(from: Vec<&str>, to: Vec<&str>) -> (r: Result<(), String>)
         requires false,
-    { unimplemented!() }
-}
-
-pub struct MimeType;
-impl MimeType {
-    pub const TEXT_HTML: &'static str = "text/html";
-    pub const TEXT_PLAIN: &'static str = "text/plain";
-    #[verifier::external_body]
-    pub fn detect_mime_type(request_uri: &str) -> (r: String)
-        ensures r@ == mime_of(request_uri@),
     { unimplemented!() }
 }
 
